@@ -1,7 +1,7 @@
 (* Model/BuilderRun.v -- the executable entry point of the C03 models (extracted by Extract/XBuilder.v).
    input  : (mode payload)
      mode 0 : payload = program   -> Model.Builder.doc_walk (docstrings left raw: the harness applies inspect.cleandoc)
-     mode 1 : payload = program   -> ( Spec.PyBind.py_exec , does py_exec_strict accept? )
+     mode 1 : payload = program   -> ( Spec.PyBind.py_exec , does py_exec_names accept? , does py_exec_strict accept? )
      mode 2 : payload = value     -> ( annotation_for_value v , type description of v )                       *)
 From Coq Require Import ZArith NArith List Bool.
 From PydoctorVerif Require Import Base.Sexp Model.MiniPy Model.Infer Model.Builder Spec.PyBind.
@@ -12,6 +12,7 @@ Definition run (s : sexp) : sexp :=
   match to_Z (nth_s 0 s) with
   | 0%Z => module_sexp (doc_walk (fun t => t) (prog_of_sexp payload))
   | 1%Z => L [py_result_sexp (py_exec (prog_of_sexp payload));
+              of_bool (match py_exec_names (prog_of_sexp payload) with Some _ => true | None => false end);
               of_bool (match py_exec_strict (prog_of_sexp payload) with Some _ => true | None => false end)]
   | 2%Z => let v := value_of_sexp (sexp_depth payload) payload in
            L [of_option annot_sexp (annotation_for_value v); ty_sexp v]
